@@ -762,6 +762,12 @@ func c10Unmount(ctx *core.Ctx, thorough bool) core.Result {
 				done <- "connect failed"
 				return
 			}
+			if round%3 == 0 {
+				// a mounted client (Mount / MountConn leave the root fid in Clnt.Root)
+				if root, err := c.Attach(nil, script.Users{}.Uid2User(0), ""); err == nil {
+					c.Root = root
+				}
+			}
 			s := &sess{p: p, c: c, dotu: true}
 			var wg sync.WaitGroup
 			ncalls := 1 + round%5
